@@ -814,9 +814,12 @@ func adj(inTime time.Time, cv *v1proto.ColumnValue, outTime time.Time) *v1proto.
 	if inTime.Equal(outTime) {
 		return cv
 	}
-	out := proto.Clone(cv).(*v1proto.ColumnValue)
-	out.UpdateOffset = durationpb.New(UpdateTime(inTime, cv).Sub(outTime))
-	return out
+	// share the (immutable) value instead of proto.Clone: cloning goes through
+	// proto3 field presence and turns a REAL -0.0 into +0.0
+	return &v1proto.ColumnValue{
+		Value:        cv.Value,
+		UpdateOffset: durationpb.New(UpdateTime(inTime, cv).Sub(outTime)),
+	}
 }
 
 func (c *VirtualTable) Begin(ctx context.Context) error {
